@@ -120,7 +120,8 @@ impl Scenario for C18S {
         "case = one case of the C01 / C02 / C04 / C05 / C09 / C12 / C13 / C15 / C16 generators (data lengths around every buffer boundary, 0..64+ attachments, ENOBUFS retries, crashed and truncated transfers, corrupt payloads) or a platform-level case (regions of length 0, 1, odd, page +-1 created, cloned, sent over a platform channel next to 0..62 channels and a data part around the fragment boundaries), executed on the AddressSanitizer build with std's unsafe-precondition checks on, canary-filled receive buffers and shadow-memory checks of every buffer handed to the kernel; non-trivial = every case (all exercise unsafe transport code); distinct = distinct (sub-case, schedule hash)"
     }
     fn died(&self, how: &str, panics: &str) -> Option<Violation> {
-        if how.starts_with("signal") || how == "exit 1" {
+        // (signal 14 is the harness's own per-run alarm: not a verdict)
+        if (how.starts_with("signal") && how != "signal 14") || how == "exit 1" {
             let what = panics.split('|').map(|s| s.trim()).find(|l| l.contains("AddressSanitizer") || l.contains("unsafe precondition") || l.contains("SUMMARY")).unwrap_or("process killed");
             let short: String = what.chars().filter(|c| !c.is_ascii_digit()).take(70).collect();
             return Some(Violation { sig: format!("memory-error:{}", short.trim()), detail: format!("the process was killed ({}) while running transport code: {}", how, panics.trim()) });
